@@ -33,7 +33,7 @@ GCC = '/usr/bin/gcc'
 h = G.h
 
 TGEN_C = dict(clamp_subscripts=False, p_lower=0.35, p_step=0.3, p_int=0.01, p_mod=0.06, p_intdiv=0.1, p_pow=0.0,
-              p_local_arrays=0.0, int_calls=False)
+              p_local_arrays=0.0, int_calls=False, p_nary=0.0)
 
 
 # ====================================================================== class predicates (FIR side)
@@ -113,7 +113,20 @@ def known_loop_bound_modified(prog):
     return False
 
 
+def known_empty_body(prog):
+    """the routine has no statement at all: generate_c_kernel does `kernel.body.prepend(…)` on a body that is None"""
+    return len(G.unit_of(prog)[4]) == 0
+
+
+def known_minmax_variadic(prog):
+    """MIN / MAX with more than two arguments: the names are mapped to the binary C functions fmin / fmax, `fmin(a, b, c)` does
+    not compile"""
+    return any(h(e) == 'call' and str(e[1]) in ('min', 'max') and len(e) > 4 for e in G.all_exprs(prog))
+
+
 PROG_CLASSES = [
+    ('c-empty-body', known_empty_body),
+    ('c-minmax-variadic', known_minmax_variadic),
     ('c-int-cast', known_int_cast),
     ('c-loop-bound-modified', known_loop_bound_modified),
     ('c-mod-unparenthesised', known_mod_factor),
@@ -227,6 +240,137 @@ def c_trunc_div(a, b):
     return q if (a < 0) == (b < 0) else -q
 
 
+class CExprError(Exception):
+    pass
+
+
+_CX_TOK = re.compile(r"""\s*(?:(?P<real>(?:\d+\.\d*|\.\d+)(?:[eE][+-]?\d+)?|\d+[eE][+-]?\d+)|(?P<int>\d+)|(?P<id>[A-Za-z_]\w*)
+                         |(?P<op>\+|-|\*|/|%|\(|\)|,))""", re.X)
+_CX_TYPES = ('int', 'double', 'float')
+
+
+def c_eval_text(text, env):
+    """value of a C expression text under C99 semantics, written from the standard (6.5.5: `* / %` one precedence level, left
+    associative, above `+ -`; unary minus above them; `/` on two ints truncates; `%` needs two ints; the usual arithmetic
+    conversions).  C `int` = Python int, C `double` = Fraction (exact).  Supported: integer and floating constants, identifiers
+    from `env`, `+ - * / %`, unary `- +`, parentheses, casts `(int)`/`(double)`, and the calls fmod fmin fmax fabs pow.
+    Raises CExprError for anything else, for division by zero and for `%` with a floating operand (a constraint violation in C)."""
+    toks, pos = [], 0
+    text = text.strip()
+    while pos < len(text):
+        m = _CX_TOK.match(text, pos)
+        if not m or m.end() == pos:
+            raise CExprError(f'cannot tokenise {text[pos:]!r}')
+        pos = m.end()
+        toks.append(('real', m.group('real')) if m.group('real') else ('int', m.group('int')) if m.group('int')
+                    else ('id', m.group('id')) if m.group('id') else ('op', m.group('op')))
+    k = 0
+
+    def peek(j=0):
+        return toks[k + j] if k + j < len(toks) else (None, None)
+
+    def take(kind=None, val=None):
+        nonlocal k
+        t = peek()
+        if t[0] is None or (kind and t[0] != kind) or (val and t[1] != val):
+            raise CExprError(f'unexpected {t[1]!r} in {text!r}')
+        k += 1
+        return t
+
+    def trunc(q):
+        return int(q.numerator // q.denominator) if q >= 0 else -int((-q.numerator) // q.denominator)
+
+    def arith(op, a, b):
+        ints = isinstance(a, int) and isinstance(b, int)
+        if op == '%':
+            if not ints:
+                raise CExprError('invalid operands to binary % (have double)')
+            if b == 0:
+                raise CExprError('division by zero')
+            return a - c_trunc_div(a, b) * b
+        if op == '/':
+            if b == 0:
+                raise CExprError('division by zero')
+            return c_trunc_div(a, b) if ints else Fraction(a) / Fraction(b)
+        r = a + b if op == '+' else a - b if op == '-' else a * b
+        return r if ints else Fraction(r)
+
+    def call(name, args):
+        fr = [Fraction(a) for a in args]
+        if name == 'fmod' and len(fr) == 2:
+            if fr[1] == 0:
+                raise CExprError('fmod by zero')
+            return fr[0] - trunc(fr[0] / fr[1]) * fr[1]
+        if name in ('fmin', 'fmax') and len(fr) == 2:
+            return min(fr) if name == 'fmin' else max(fr)
+        if name == 'fabs' and len(fr) == 1:
+            return abs(fr[0])
+        if name == 'pow' and len(fr) == 2 and fr[1].denominator == 1 and abs(fr[1]) <= 32:
+            if fr[0] == 0 and fr[1] < 0:
+                raise CExprError('pow(0, negative)')
+            return fr[0] ** int(fr[1])
+        raise CExprError(f'call {name} with {len(args)} arguments')
+
+    def primary():
+        t = take()
+        if t[0] == 'int':
+            return int(t[1])
+        if t[0] == 'real':
+            return Fraction(t[1])
+        if t[0] == 'id':
+            if peek() == ('op', '('):
+                take()
+                args = []
+                if peek() != ('op', ')'):
+                    args.append(additive())
+                    while peek() == ('op', ','):
+                        take()
+                        args.append(additive())
+                take('op', ')')
+                return call(t[1], args)
+            if t[1] not in env:
+                raise CExprError(f'unknown identifier {t[1]}')
+            return env[t[1]]
+        if t == ('op', '('):
+            if peek()[0] == 'id' and peek()[1] in _CX_TYPES and peek(1) == ('op', ')'):      # cast
+                ty = take()[1]
+                take('op', ')')
+                v = unary()
+                return (v if isinstance(v, int) else trunc(v)) if ty == 'int' else Fraction(v)
+            v = additive()
+            take('op', ')')
+            return v
+        raise CExprError(f'unexpected {t[1]!r} in {text!r}')
+
+    def unary():
+        if peek() == ('op', '-'):
+            take()
+            return -unary()
+        if peek() == ('op', '+'):
+            take()
+            return unary()
+        return primary()
+
+    def multiplicative():
+        v = unary()
+        while peek()[0] == 'op' and peek()[1] in '*/%':
+            op = take()[1]
+            v = arith(op, v, unary())
+        return v
+
+    def additive():
+        v = multiplicative()
+        while peek()[0] == 'op' and peek()[1] in '+-':
+            op = take()[1]
+            v = arith(op, v, multiplicative())
+        return v
+
+    v = additive()
+    if k != len(toks):
+        raise CExprError(f'trailing {peek()[1]!r} in {text!r}')
+    return v
+
+
 @functools.lru_cache(maxsize=None)
 def cgen_ops():
     """texts the real cgen prints for i / j, mod(i, j), mod(x, y), mod(i, 2.0)"""
@@ -236,7 +380,28 @@ def cgen_ops():
            '  real, intent(in) :: x, y\n  real, intent(out) :: z\n  k = i / j\n  k = mod(i, j)\n  z = mod(x, y)\n  z = mod(i, 2.0)\n'
            'end subroutine ops\n')
     routine = fir.parse_fortran(src).routines[0]
-    return [cgen(a.rhs).replace(' ', '') for a in FindNodes(Assignment).visit(routine.body)]
+    return tuple(cgen(a.rhs) for a in FindNodes(Assignment).visit(routine.body))
+
+
+def op_choice(text):
+    """which C operator / function a printed text uses (independent of its parenthesisation)"""
+    return 'fmod' if 'fmod(' in text else 'pct' if '%' in text else 'slash' if '/' in text else 'other'
+
+
+def ops_values(a, b):
+    """[(text, C value or error text, Fortran value)] of the four operator probes at i = a, j = b, x = a/2, y = b/2"""
+    env = {'i': a, 'j': b, 'x': Fraction(a, 2), 'y': Fraction(b, 2)}
+    rt = lambda q: int(q.numerator // q.denominator) if q >= 0 else -int((-q.numerator) // q.denominator)
+    x, y = env['x'], env['y']
+    want = [tdiv(a, b), a - tdiv(a, b) * b, x - rt(x / y) * y, Fraction(a) - rt(Fraction(a, 2)) * 2]
+    out = []
+    for text, w in zip(cgen_ops(), want):
+        try:
+            got = c_eval_text(text, env)
+        except CExprError as e:
+            got = f'error: {e}'
+        out.append((text, got, w))
+    return out
 
 
 _GCC_DIVMOD = None
@@ -306,6 +471,163 @@ def gen_tables():
         "/-- `FortranCTransformation`'s intrinsic function map -/",
         'def functionMap : List (String × String) := [' + ', '.join(f'("{k}", "{v}")' for k, v in fmap.items()) + ']',
         'end LokiModel.C35.Tables']) + '\n'
+
+
+# ====================================================================== integer MOD expressions (family `cexpr`)
+
+from ..fir import I, V, BIN, NEG, CALL, ilit       # noqa: E402
+
+
+def gen_mod_expr(rng, in_class=False):
+    """an integer expression over i, j, k built around MOD calls whose operands are products, quotients, sums, negations and
+    nested MODs (the operand shapes where the parenthesisation of the printed `%` matters).  `in_class`: a MOD is the right
+    operand of `*` or `/` (class c-mod-unparenthesised of the unchanged code); otherwise MODs only stand where the unchanged
+    printer is right (top level, left operand, term of a sum, argument of another MOD)."""
+    var = lambda: V(rng.choice('ijk'))
+    small = lambda: I(rng.randint(2, 7))
+
+    def pos():          # a strictly positive integer expression (safe second operand / divisor)
+        r = rng.random()
+        v = var()
+        if r < 0.3:
+            return BIN('add', BIN('mul', v, v), I(rng.randint(1, 4)))
+        if r < 0.5:
+            return small()
+        if r < 0.75:
+            return BIN('add', CALL('mod', BIN('mul', v, v), small()), I(1))
+        return BIN('add', BIN('mul', v, var()), I(100))
+
+    def second(d):      # second operand: the seeded family is product / quotient; also sum, variable, literal, nested mod
+        r = rng.random()
+        if r < 0.3:
+            return BIN('mul', small(), pos())                       # 2*k
+        if r < 0.45:
+            return BIN('mul', pos(), small())
+        if r < 0.6:
+            return BIN('div', BIN('add', pos(), I(12)), small())     # n/2  (≥ 1)
+        if r < 0.7:
+            return BIN('div', BIN('mul', I(20), pos()), pos()) if d > 0 else pos()
+        if r < 0.8:
+            return pos()
+        if r < 0.9:
+            return small()
+        return BIN('add', mod(d - 1), I(50)) if d > 0 else small()
+
+    def first(d):
+        r = rng.random()
+        if r < 0.25:
+            return BIN('mul', small(), var())
+        if r < 0.4:
+            return BIN(rng.choice(('add', 'sub')), var(), var())
+        if r < 0.5:
+            return BIN('div', BIN('mul', var(), var()), small())
+        if r < 0.6:
+            return NEG(var())
+        if r < 0.75 and d > 0:
+            return mod(d - 1)
+        if r < 0.85:
+            return BIN('add', BIN('mul', var(), small()), I(rng.randint(1, 30)))
+        return var()
+
+    def mod(d):
+        return CALL('mod', first(d), second(d))
+
+    m = mod(2)
+    if in_class:
+        return BIN(rng.choice(('mul', 'mul', 'div')), BIN('add', var(), I(20)) if rng.random() < 0.5 else small(),
+                   BIN('add', m, I(0)) if False else m)
+    r = rng.random()
+    if r < 0.3:
+        return m
+    if r < 0.45:
+        return BIN('add', m, mod(1))
+    if r < 0.6:
+        return BIN('sub', var(), m)
+    if r < 0.75:
+        return BIN('mul', m, small())
+    if r < 0.85:
+        return BIN('div', m, small())
+    return NEG(m)
+
+
+def cexpr_program(e):
+    d = lambda x, intent: [A('decl'), A(x), A('int'), A(intent), [], fir.NONE]
+    unit = [A('unit'), A('kernel'), [A('i'), A('j'), A('k'), A('r')], [d('i', 'in'), d('j', 'in'), d('k', 'in'), d('r', 'out')],
+            [[A('assign'), V('r'), e]]]
+    return fir.canon([A('program'), A('kernel'), unit])
+
+
+def gen_cexpr(rng, in_class=False):
+    """(program, [inputs]) with three input sets on which the Fortran value exists"""
+    for _ in range(50):
+        prog = cexpr_program(gen_mod_expr(rng, in_class))
+        if known_mod_factor(prog) != in_class:
+            continue
+        inputs = []
+        for _ in range(30):
+            if len(inputs) == 3:
+                break
+            inp = [[A(x), fir.encode_val(rng.choice([v for v in range(-9, 10) if v]))] for x in 'ijk']
+            stats = {}
+            res = fir.interp(prog, inp, stats=stats)
+            if res[0] == 'ok' and stats.get('max_int', 0) < 2 ** 28:
+                inputs.append(inp)
+        if len(inputs) == 3:
+            return prog, inputs
+    raise RuntimeError('no MOD expression found')
+
+
+def cexpr_text(prog):
+    """the C text of the right-hand side after the REAL generate_c_kernel + cgen"""
+    from loki.transformations.transpile import FortranCTransformation
+    from loki.backend.cgen import cgen
+    from loki import FindNodes, Assignment
+    routine = fir.parse_fortran(fir.emit_fortran(prog, wrap_program=False)).routines[0]
+    kernel = FortranCTransformation().generate_c_kernel(routine, targets=None)
+    asg = FindNodes(Assignment).visit(kernel.body)
+    if len(asg) != 1:
+        raise ValueError('expected one assignment')
+    return cgen(asg[0].rhs)
+
+
+# ====================================================================== loop headers (family `cloop`)
+
+_FOR = re.compile(r'for \((\w+) = (.+); \1 (<=|>=|<|>) (.+); \1 \+= (.+)\) \{$')
+
+
+def c_loop_header(s, e, st):
+    """the `for (…)` line the real CCodegen.visit_Loop prints for `DO i = s, e[, st]` with literal bounds"""
+    from loki.backend.cgen import cgen
+    from loki.expression import symbols as sym
+    from loki.ir import Loop
+    from .. import exprs as X
+    lit = lambda n: sym.IntLiteral(n) if n >= 0 else sym.Product((-1, sym.IntLiteral(-n)))
+    bounds = sym.LoopRange((lit(s), lit(e), None if st is None else lit(st)))
+    return cgen(Loop(variable=X.var('i'), bounds=bounds, body=())).splitlines()[0].strip()
+
+
+def c_loop_values(header, cap=10000):
+    """execute a C `for` header: the values of the loop variable for which the body runs, and its value after the loop
+    (condition and increment are re-evaluated every time round, as C does)"""
+    m = _FOR.match(header)
+    if not m:
+        raise CExprError(f'unexpected loop header {header!r}')
+    v, start, crit, end, incr = m.groups()
+    env = {}
+    env[v] = c_eval_text(start, env)
+    seen = []
+    test = {'<=': lambda a, b: a <= b, '>=': lambda a, b: a >= b, '<': lambda a, b: a < b, '>': lambda a, b: a > b}[crit]
+    while test(env[v], c_eval_text(end, env)):
+        seen.append(env[v])
+        if len(seen) > cap:
+            raise CExprError('loop does not terminate')
+        env[v] = env[v] + c_eval_text(incr, env)
+    return seen, env[v]
+
+
+def fortran_do(s, e, st):
+    n = max(0, tdiv(e - s + st, st))
+    return [s + q * st for q in range(n)], s + n * st
 
 
 # ====================================================================== ABI of default REAL
@@ -417,6 +739,20 @@ class C35(Prop):
                 if b:
                     yield Case([A('divmod'), a, b], stream='divmod', nontrivial=a % b != 0 and (a < 0 or b < 0))
         yield Case([A('passby')], stream='passby')
+        # integer MOD with compound operands: the printed C text is evaluated with C semantics
+        n_mod = {'quick': 40, 'thorough': 400, 'search': 150}.get(tier, 40)
+        for q in range(n_mod):
+            in_class = q % 8 == 7
+            prog, inputs = gen_cexpr(rng, in_class)
+            yield Case([A('cexpr'), prog] + inputs, stream='cexpr-class' if in_class else 'cexpr', nontrivial=not in_class)
+        # loop headers: exhaustive box, every sign of the step, sequences that reach / miss the stop value, zero-trip loops
+        RL = {'quick': 4, 'thorough': 7, 'search': 5}.get(tier, 4)
+        for s0 in range(-RL, RL + 1):
+            for e0 in range(-RL, RL + 1):
+                for st in [None] + [c for c in range(-RL, RL + 1) if c != 0]:
+                    seq, _ = fortran_do(s0, e0, 1 if st is None else st)
+                    yield Case([A('cloop'), s0, e0, A('none') if st is None else st],
+                               stream='cloop-down' if st is not None and st < 0 else 'cloop-up', nontrivial=bool(seq))
         if tier == 'quick':
             return
         n_prog = {'thorough': 90, 'search': 40}.get(tier, 0)
@@ -472,9 +808,7 @@ class C35(Prop):
             return [A('ok'), v] if tag == 'ok' else [A('error'), A(tag), v]
         if op == 'divmod':
             a, b = int(str(req[1])), int(str(req[2]))
-            ops = cgen_ops()
-            choice = [A('slash' if ops[0] == 'i/j' else 'other'), A('pct' if ops[1] == '(i)%(j)' else 'other'),
-                      A('fmod' if ops[2].startswith('fmod(') else 'other'), A('fmod' if ops[3].startswith('fmod(') else 'other')]
+            choice = [A(op_choice(t)) for t in cgen_ops()]
             q = c_trunc_div(a, b)
             return [A('ok'), choice, q, a - q * b]
         if op == 'passby':
@@ -484,7 +818,25 @@ class C35(Prop):
             return [A('ok')] + [fir.result_to_sexp(fir.interp(prog, inp)) for inp in inputs]
         if op == 'abi':
             return [A('ok'), A('abi')]
+        if op == 'cexpr':
+            prog, inputs = self.dec_prog(req)
+            return [A('ok')] + [fir.result_to_sexp(fir.interp(prog, inp)) for inp in inputs]
+        if op == 'cloop':
+            s0, e0, st = self.dec_cloop(req)
+            try:
+                return [A('ok')] + c_loop_values(c_loop_header(s0, e0, st))[0]
+            except CExprError as e:
+                return [A('error'), str(e)[:80]]
         raise ValueError(op)
+
+    @staticmethod
+    def dec_cloop(req):
+        if len(req) != 4:
+            raise ValueError('malformed cloop request')
+        st = None if str(req[3]) == 'none' else int(str(req[3]))
+        if st == 0:
+            raise ValueError('zero step')
+        return int(str(req[1])), int(str(req[2])), st
 
     # ---------------------------------------------------------------- direct oracle
     def oracle(self, req):
@@ -501,10 +853,12 @@ class C35(Prop):
             return []
         if op == 'divmod':
             a, b = int(str(req[1])), int(str(req[2]))
-            ops = cgen_ops()
             out = []
-            if ops[0] != 'i/j' or ops[1] != '(i)%(j)' or not ops[2].startswith('fmod(') or not ops[3].startswith('fmod('):
-                out.append(Failure(f'cgen operator choice for i/j, mod(i,j), mod(x,y), mod(i,2.0): {ops}'))
+            # semantic: the texts cgen really prints for i/j, mod(i,j), mod(x,y), mod(i,2.0), evaluated with C semantics
+            for text, got, want in ops_values(a, b):
+                same = type(got) is type(want) and got == want if isinstance(want, int) else (not isinstance(got, (int, str)) and got == want)
+                if not same:
+                    out.append(Failure(f'cgen prints {text!r}; with i={a}, j={b}, x={a}/2, y={b}/2 its C value is {got}, Fortran gives {want}'))
             fq, fr = tdiv(a, b), a - tdiv(a, b) * b
             if getattr(self, '_tier', 'quick') != 'quick' and os.path.exists(GCC) and abs(a) <= 12 and abs(b) <= 12:
                 q, r = gcc_divmod()[(a, b)]
@@ -524,6 +878,39 @@ class C35(Prop):
             return out
         if op == 'prog':
             return self.oracle_prog(req)
+        if op == 'cexpr':
+            prog, inputs = self.dec_prog(req)
+            cls = classify_prog(prog)
+            try:
+                text = cexpr_text(prog)
+            except Exception as e:      # noqa: whatever the transformation raises
+                return [Failure(f'generate_c_kernel / cgen raised {type(e).__name__}: {str(e)[:160]}', cls)]
+            src = fir.emit_ex(G.unit_of(prog)[4][0][2])
+            for inp in inputs:
+                ref = fir.interp(prog, inp)
+                if ref[0] != 'ok':
+                    continue
+                env = {str(r[0]): fir.decode_val(r[1]) for r in inp}
+                want = ref[1]['r'][0]
+                try:
+                    got = c_eval_text(text, env)
+                except CExprError as e:
+                    got = f'error: {e}'
+                if not (isinstance(got, int) and got == want):
+                    return [Failure(f'r = {src} is translated to {text!r}; with {env} its C value is {got}, Fortran gives {want}', cls)]
+            return []
+        if op == 'cloop':
+            s0, e0, st = self.dec_cloop(req)
+            header = c_loop_header(s0, e0, st)
+            want = fortran_do(s0, e0, 1 if st is None else st)
+            try:
+                got = c_loop_values(header)
+            except CExprError as e:
+                return [Failure(f'DO i = {s0}, {e0}, {st}: {e}')]
+            if got[0] != want[0] or got[1] != want[1]:
+                return [Failure(f'DO i = {s0}, {e0}, {st} runs its body for i = {want[0]} and leaves i = {want[1]}; the generated '
+                                f'`{header}` runs it for {got[0]} and leaves i = {got[1]}')]
+            return []
         if op == 'abi':
             if not (os.path.exists(GCC) and os.path.exists(fir.GFORTRAN)):
                 return []
@@ -556,6 +943,8 @@ class C35(Prop):
         return []
 
     def shrink_candidates(self, req):
+        if str(req[0]) == 'cexpr':
+            yield from shrink_cexpr(req)
         if str(req[0]) == 'prog':
             for r in G.shrink_prog([req[0], A('plain')] + req[1:]):
                 yield [r[0]] + r[2:]
@@ -564,6 +953,27 @@ class C35(Prop):
         cov = {'routines_compiled_and_run': len(getattr(self, '_cache', {})),
                'routines_outside_classes': sum(1 for c in cases if str(c.req[0]) == 'prog' and c.nontrivial)}
         return [], cov
+
+
+def shrink_cexpr(req):
+    """smaller requests of the same shape: fewer input sets, a subexpression of integer type in place of the right-hand side
+    or of one of its operands"""
+    prog, inputs = req[1], req[2:]
+    if len(inputs) > 1:
+        for q in range(len(inputs)):
+            yield [req[0], prog] + inputs[:q] + inputs[q + 1:]
+    rhs = G.unit_of(prog)[4][0][2]
+
+    def variants(e):
+        kids = [c for c in e[1:] if isinstance(c, list) and h(c)]
+        for c in kids:
+            yield c
+        for q, c in enumerate(e):
+            if isinstance(c, list) and h(c):
+                for v in variants(c):
+                    yield e[:q] + [v] + e[q + 1:]
+    for v in variants(rhs):
+        yield [req[0], cexpr_program(v)] + inputs
 
 
 def prepare(prog, inputs):
